@@ -6,6 +6,7 @@ use std::io::{BufRead, Write};
 mod rng;
 mod lc;
 mod dp;
+mod srt;
 
 pub use rng::Rng;
 
@@ -20,6 +21,7 @@ fn area(name: &str) -> Box<dyn Area> {
     match name {
         "lc" => Box::new(lc::Lc),
         "dp" => Box::new(dp::Dp),
+        "srt" => Box::new(srt::Srt),
         _ => {
             eprintln!("unknown area {}", name);
             std::process::exit(2)
